@@ -423,6 +423,6 @@ def do_commute(hybrid_op_a, hybrid_op_b, term_resolved=False):
             )
 
     if not term_resolved:
-        return not np.all(term_bool)
+        return not np.any(term_bool)
     else:
         return np.logical_not(term_bool)
